@@ -50,6 +50,29 @@ def model_check_book(ctx):
     c = vlib.cfg(spec="BSpec", constants={"MaxID": 3 if ctx.quick() else 4},
                  invariants=["BTypeOK", "FreshMeansComplete", "UpdatedAndHeldIsIndexed", "LingeringIsQueued"])
     ctx.tlc("IndexBook", c, workers=4, deadlock=False)
+    # the same invariants for every bound on the number of ids (TLAPS); in the thorough tier the proof is
+    # also run against a broken ApplyEnd (the cell map is not refreshed) and must fail
+    n = ctx.tlaps("IndexBookProof")
+    ctx.notes.append("TLAPS: %d proof obligations of IndexBookProof.tla proved (bookkeeping invariants for every number of shape ids)" % n)
+    if not ctx.quick():
+        import os
+        import shutil
+        import subprocess
+        d = os.path.join(ctx.scratch, "spec-bookmut")
+        shutil.copytree(ctx.specdir(), d, ignore=shutil.ignore_patterns(".tlacache", "states", "*.cfg", "md*"))
+        f = os.path.join(d, "IndexBook.tla")
+        t = open(f).read()
+        if "idx' = live" not in t:
+            raise vlib.Infra("IndexBook.tla: text of ApplyEnd not found for the vacuity check")
+        open(f, "w").write(t.replace("idx' = live /\\ rem' = 0", "idx' = idx /\\ rem' = 0"))
+        try:
+            p = subprocess.run(["tlapm", "--threads", "8", "IndexBookProof.tla"], cwd=d, capture_output=True, text=True, timeout=900)
+        except subprocess.TimeoutExpired:
+            raise vlib.Infra("tlapm timed out on the broken IndexBook")
+        out = (p.stdout or "") + (p.stderr or "")
+        if "obligations failed" not in out:
+            raise vlib.Infra("tlapm did not reject the broken IndexBook (vacuous proof?):\n" + out[-1500:])
+        ctx.log("TLAPS IndexBookProof on a broken ApplyEnd: rejected")
 
 
 def run(ctx):
